@@ -19,10 +19,10 @@ use serde_json::json;
 
 const K: f64 = 64.0;
 const K3_SIG: &str = "eigen:real-part-reducible-with-derivative-coupling";
-const K4_SIG: &str = "nalgebra-symmetric_eigen:derivative-parts-converge-later-than-the-real-part(relative-residual<=1e-4)";
+const K4_SIG: &str = "nalgebra-symmetric_eigen:derivative-parts-converge-later-than-the-real-part(relative-residual<=1e-6/5e-2/0.5-by-order)";
 /// relative residual up to which a miss of the rounding-level bound is attributed to K4
-const K4_BAND: f64 = 1e-4;
-const K5_SIG: &str = "jacobi_eigenvalue:derivative-parts-converge-later-than-the-real-part(relative-residual<=1e-4)";
+const K4_BAND: f64 = 1.0;
+const K5_SIG: &str = "jacobi_eigenvalue:derivative-parts-converge-later-than-the-real-part(relative-residual<=1e-6/5e-2/0.5-by-order)";
 
 type J = Jet<f64>;
 
@@ -270,27 +270,47 @@ fn check_eigen(acc: &mut Acc, what: &str, base_sig: String, lag_sig: &str, band:
             res.push((format!("V^T V = I, entry ({},{})", i, j), r2));
         }
     }
-    let mut worst_rel = 0.0f64;
+    // worst relative residual per derivative order
+    let maxdeg = b.max_deg;
+    let mut worst = vec![0.0f64; maxdeg + 1];
     let mut first: Option<(String, usize, f64, f64)> = None;
     for (nm, r) in &res {
-        if let Err((c, rv, al)) = residual_ok(r, &mm, tol, u, 1e-300) {
-            for cc in 0..r.c.len() {
-                if mm.c[cc] > 0.0 {
-                    worst_rel = worst_rel.max(r.c[cc].abs() / mm.c[cc]);
-                }
+        for cc in 0..r.c.len() {
+            if mm.c[cc] > 0.0 {
+                let d = b.deg[cc];
+                worst[d] = worst[d].max(r.c[cc].abs() / mm.c[cc]);
             }
+        }
+        if let Err((c, rv, al)) = residual_ok(r, &mm, tol, u, 1e-300) {
             if first.is_none() || b.deg[c] == 0 {
                 first = Some((nm.clone(), c, rv, al));
             }
         }
     }
+    let short = what.split(" on ").next().unwrap_or(what).to_string();
+    for (d, w) in worst.iter().enumerate().skip(1) {
+        acc.maxi(&format!("max_relative_residual[{}][order{}]", short, d), *w);
+    }
     if let Some((nm, c, rv, al)) = first {
-        // is the real part clean and everything within the band?
+        // attribution to the listed finding: real part at rounding level, and the derivative parts
+        // within the band of their order (the lag grows with the order, see DESIGN.md 7.3)
         let real_ok = res.iter().all(|(_, r)| r.c[0].abs() <= tol * u * mm.c[0] + 1e-300);
-        let in_band = real_ok && worst_rel <= band;
-        acc.maxi(&format!("max_relative_residual[{}]", what.split(" on ").next().unwrap_or(what)), if in_band || !real_ok { worst_rel } else { 0.0 });
+        let in_band = real_ok && worst.iter().enumerate().skip(1).all(|(d, w)| *w <= band_for(band, d));
         let sig = if in_band { lag_sig.to_string() } else { format!("{}:deg{}", base_sig, b.deg[c]) };
-        acc.violate(sig, format!("{} (n={}): {} part {}: residual {:e}, rounding-level allowance {:e}; worst relative residual {:.2e}", what, n, nm, b.mono_name(c), rv, al, worst_rel), ecase());
+        acc.violate(sig, format!("{} (n={}): {} part {}: residual {:e}, rounding-level allowance {:e}; worst relative residual per order {:?}", what, n, nm, b.mono_name(c), rv, al, worst), ecase());
+    }
+}
+
+/// allowed relative residual of a derivative part of order d under the lag findings K4/K5
+fn band_for(scale: f64, d: usize) -> f64 {
+    if !scale.is_finite() {
+        return f64::INFINITY;
+    }
+    match d {
+        0 => 0.0,
+        1 => 1e-6 * scale,
+        2 => 5e-2 * scale,
+        _ => 0.5 * scale,
     }
 }
 
@@ -355,7 +375,7 @@ fn check_crate<T: Jetty<F = f64> + Copy>(tname: &str, ctx: &Ctx, shard: usize, n
                 continue;
             }
         };
-        let tol_all = K * n as f64 * kappa_pow(kappa, maxdeg) * ((maxdeg + 1) * (maxdeg + 1)) as f64;
+        let tol_all = K * n as f64 * kappa_pow(kappa, maxdeg) * ((maxdeg + 1) * (maxdeg + 1) * (maxdeg + 1)) as f64;
         // A x = b
         if let Ok(x) = guarded(|| lu.solve(&bvec)) {
             let xj: Option<Vec<J>> = x.iter().map(|v| to_jet(v, &b, &shape)).collect();
@@ -366,7 +386,7 @@ fn check_crate<T: Jetty<F = f64> + Copy>(tname: &str, ctx: &Ctx, shard: usize, n
                     let (res, mm) = identity_residuals(&a.jets, &xcol, &|i, _| rhs.jets[i][0].clone(), &b);
                     for (i, _, r) in res {
                         match residual_ok(&r, &mm, tol_all, u, 0.0) {
-                            Ok(w) => acc.ratio(w / (n as f64 * kappa_pow(kappa, maxdeg)), || format!("solve {}", tname)),
+                            Ok(w) => acc.ratio(K * w / tol_all, || format!("solve {} (in units of K = 64 allowed)", tname)),
                             Err((c, rv, al)) => {
                                 acc.violate(format!("solve:{}:deg{}", tname, b.deg[c]), format!("A x = b violated on {} (n={}, kappa={}, {:?}): row {} part {}: residual {:e}, allowed {:e}", tname, n, kappa, order, i, b.mono_name(c), rv, al), case());
                                 break;
@@ -460,7 +480,7 @@ fn check_crate<T: Jetty<F = f64> + Copy>(tname: &str, ctx: &Ctx, shard: usize, n
                         (Some(lj), Some(vj)) => {
                             let tol = K * (n * n) as f64 * ((maxdeg + 1) * (maxdeg + 1)) as f64;
                             if hostile {
-                                check_eigen(&mut acc, &format!("jacobi_eigenvalue on {} with a diagonal real part and off-diagonal derivative parts", tname), K3_SIG.to_string(), K3_SIG, f64::INFINITY, &s.jets, &lj, &vj, &b, tol, u, &ecase);
+                                check_eigen(&mut acc, &format!("jacobi_eigenvalue[reducible real part] on {} with a diagonal real part and off-diagonal derivative parts", tname), K3_SIG.to_string(), K3_SIG, f64::INFINITY, &s.jets, &lj, &vj, &b, tol, u, &ecase);
                             } else {
                                 check_eigen(&mut acc, &format!("jacobi_eigenvalue on {}", tname), format!("jacobi:{}", tname), K5_SIG, K4_BAND, &s.jets, &lj, &vj, &b, tol, u, &ecase);
                             }
@@ -510,7 +530,7 @@ fn check_nalgebra<T: Jetty<F = f64> + RealField>(tname: &str, ctx: &Ctx, shard: 
         let am = DMatrix::from_fn(n, n, |i, j| a.vals[i][j].clone());
         let bv = DVector::from_fn(n, |i, _| rhs.vals[i][0].clone());
         let case = || json!({"type": tname, "shape": shape.name(), "n": n, "kappa": kappa, "row_order": format!("{:?}", order), "A_parts": a.vals.iter().map(|r| r.iter().map(|x| floats(&parts(x, &shape))).collect::<Vec<_>>()).collect::<Vec<_>>()});
-        let tol_all = K * n as f64 * kappa_pow(kappa, maxdeg) * ((maxdeg + 1) * (maxdeg + 1)) as f64;
+        let tol_all = K * n as f64 * kappa_pow(kappa, maxdeg) * ((maxdeg + 1) * (maxdeg + 1) * (maxdeg + 1)) as f64;
         acc.observe(&format!("nalgebra-lu|{}|n{}|{:?}", tname, n, order), n >= 2);
         // solve
         match guarded(|| am.clone().lu().solve(&bv)) {
